@@ -5,7 +5,7 @@
    output: (ok (pc-before-each-event..) FILES STAMP LOCKFILE FLOCK NETREQS ((pc tries populated cache_err)..)) *)
 let cell_sx = function Good -> A "G" | Hole -> A "H"
 let sx_cell = function A "G" -> Good | A "H" -> Hole | _ -> failwith "cell"
-let fail_sx = function FParse -> "parse" | FURLError -> "urlerror" | FNotCached -> "notcached" | FValueError -> "valueerror"
+let fail_sx = function FParse -> "parse" | FURLError -> "urlerror" | FNotCached -> "notcached" | FValueError -> "valueerror" | FFileNotFound -> "filenotfound"
 let outcome_sx = function
   | OLoaded -> A "loaded" | OFail e -> A (fail_sx e) | OSkipped -> A "skipped" | OMoved -> A "moved"
 let pc_sx (x : pc) : sx =
@@ -16,7 +16,7 @@ let pc_sx (x : pc) : sx =
   | LRead b -> L [A "LRead"; bool_sx b] | LFallback -> a0 "LFallback" | RBody -> a0 "RBody"
   | RExitOpen -> a0 "RExitOpen" | RExitWrite -> a0 "RExitWrite" | LRecheck -> a0 "LRecheck"
   | DOpen f -> a1 "DOpen" f | DWrite (f, i) -> a2 "DWrite" f i | DReplace f -> a1 "DReplace" f
-  | FList1 -> a0 "FList1" | FEnter -> a0 "FEnter" | FAcquire -> a0 "FAcquire" | FExists f -> a1 "FExists" f | FTOpen f -> a1 "FTOpen" f
+  | FList1 -> a0 "FList1" | FClean -> a0 "FClean" | FEnter -> a0 "FEnter" | FAcquire -> a0 "FAcquire" | FExists f -> a1 "FExists" f | FTOpen f -> a1 "FTOpen" f
   | FTWrite (f, i) -> a2 "FTWrite" f i | FReplace f -> a1 "FReplace" f | FRelease -> a0 "FRelease"
   | FCheck -> a0 "FCheck" | FRead -> a0 "FRead" | FReadInstalled -> a0 "FReadInstalled"
   | XEnter -> a0 "XEnter" | XAcquire -> a0 "XAcquire" | XBody -> a0 "XBody" | XExit -> a0 "XExit"
@@ -33,7 +33,7 @@ let sx_stamp = function A "N" -> NoStamp | A "T" -> StampTorn | L [A "A"; t] -> 
 let stamp_sx = function NoStamp -> A "N" | StampTorn -> A "T" | StampAt t -> L [A "A"; nat_sx t]
 let sx_kind = function
   | L [A "L"; v] -> KLoad (sx_nat v) | A "R" -> KRefresh | L [A "D"; f] -> KDownload (sx_nat f)
-  | L [A "LF"; v] -> KLoadFixed (sx_nat v) | A "RF" -> KRefreshFixed | _ -> failwith "kind"
+  | L [A "LF"; v] -> KLoadFixed (sx_nat v) | A "RF" -> KRefreshFixed | L [A "RO"; o] -> KRefreshOf (sx_nat o) | _ -> failwith "kind"
 let sx_event = function
   | L [A "R"; p] -> Run (sx_nat p) | L [A "C"; p] -> Crash (sx_nat p) | L [A "T"; d] -> Tick (sx_nat d)
   | _ -> failwith "event"
@@ -43,11 +43,11 @@ let () = main_loop (fun x ->
   match x with
   | L [L [nf; nc; th; mt; ul]; L [L fs; st; lf; clk]; L ks; L evs] ->
     let c = { nfiles = sx_nat nf; nchunks = sx_nat nc; threshold = sx_nat th; max_tries = sx_nat mt;
-              unlink_on_release = sx_bool ul } in
+              unlink_on_release = sx_bool ul; cleanup_outside_lock = false; memo_stamp = false } in
     let has_lf = sx_bool lf in
     let s = { files_of = List.map sx_file fs; stamp = sx_stamp st;
               lockfile = (if has_lf then Some O else None); locks = [];
-              next_ino = (if has_lf then S O else O); clock = sx_nat clk; netreqs = O } in
+              next_ino = (if has_lf then S O else O); clock = sx_nat clk; netreqs = O; memos = [] } in
     let w = { sh = s; procs = List.map (fun k -> start (sx_kind k)) ks } in
     let evs = List.map sx_event evs in
     let tr = trace c w evs in
